@@ -33,7 +33,7 @@ def gen_cases(rng, tier, count=None):
         n = c["n"]
         sd = math.floor(math.log2(n))
         c["params"]["h_max"] = int(rng.choice([1, 3, sd - 1, sd, sd + 1, 12, 25, n + 5 if n <= 128 else 40]))
-        out.append(c)
+        out.append(gen.add_midqueries(rng, c, 0.3))
     return out
 
 
